@@ -28,6 +28,11 @@ func c03Alphabet(c Cfg) []Op {
 	}
 }
 
+// c03MmapAlphabet: also a record that ends in zero bytes (the unwritten rest of a mapped file reads as zeros).
+func c03MmapAlphabet(c Cfg) []Op {
+	return append(c03Alphabet(c), Op{K: "put", Key: "a", VC: "Z", Dev: true})
+}
+
 // c03BlockAlphabet (block family, DataFileSize 1 MiB): multi-block values, records ending next to block boundaries.
 func c03BlockAlphabet(c Cfg) []Op {
 	return []Op{
@@ -289,7 +294,7 @@ func c03Tasks(tier string) []Task {
 		mcfgs = append(mcfgs, c)
 	}
 	for d := 1; d <= md; d++ {
-		ml = append(ml, seqLevel{Name: fmt.Sprintf("mmap-len%d", d), Cfgs: mcfgs, Keys: keysAB, Alpha: c03Alphabet, Depth: d, Dev: 3, Run: runTwice, MaxViols: 1})
+		ml = append(ml, seqLevel{Name: fmt.Sprintf("mmap-len%d", d), Cfgs: mcfgs, Keys: keysAB, Alpha: c03MmapAlphabet, Depth: d, Dev: 3, Run: runTwice, MaxViols: 1})
 	}
 	// block family on the memory-mapped back-end: records of several chunks torn in their 2nd / 3rd chunk
 	mblk := blk
